@@ -115,7 +115,7 @@ PROPS = {
         theorems=[P + "C03." + t for t in ("no_lost_wakeup", "release_serves_head", "arrivals_at_tail", "cancelled_never_served", "cancel_keeps_invariant",
                                           "waiter_implies_full_seq", "wait_deadline", "wait_timeout_zero_is_none", "fifo_no_overtaking", "fifo_queue_order",
                                           "wait_not_early", "wait_not_early_pending", "wait_not_early_reachable", "wait_prompt", "wait_only_shrinks", "gave_up_never_granted",
-                                          "abandoned_never_granted", "answered_at_most_once", "cancel_makes_gone", "disconnect_answers_waiters")]
+                                          "abandoned_never_granted", "answered_at_most_once", "cancel_makes_gone", "disconnect_answers_waiters", "session_end_grants_no_own_waiter")]
                  + ["Ldlm.Table.run_inv", "Ldlm.Table.no_overtaking", "Ldlm.Table.queue_order", "Ldlm.Core.run_pu",
                     "Ldlm.Core.advanceTo_wait_not_early", "Ldlm.Core.advanceTo_wait_prompt", "Ldlm.Core.run_pq", "Ldlm.Core.step_evok", "Ldlm.Core.step_gone", "Ldlm.Core.step_evgone", "Ldlm.Core.step_answered_gone", "Ldlm.Core.step_nreq_mono"],
         streams=[CONC, SEQ],
